@@ -47,6 +47,7 @@ func init() {
 			return s
 		}
 		closed := false
+		handed := map[unsafe.Pointer]bool{}
 		tail := func() string {
 			if closed {
 				// Close lets the restarted goroutine take what it can before it stops: what is left is not determined
@@ -60,6 +61,12 @@ func init() {
 			arr := "arr=same"
 			if vArr(s) != a0 {
 				arr = "arr=fresh"
+			}
+			if k1 != k0 {
+				handed[a0] = true // this array now belongs to the channel / the policy goroutine (kept alive here)
+			}
+			if handed[vArr(s)] {
+				arr = "arr=handed" // the stripe writes into an array it has given away
 			}
 			switch {
 			case k1 != k0:
